@@ -132,19 +132,23 @@ func (s *simTargets) RoundTrip(req *http.Request) (*http.Response, error) {
 }
 
 type sideWorld struct {
-	dir      string
-	cfgm     *prom.ConfigManager
-	sm       *scrape.Manager
-	tm       *sidecar.TargetsManager
-	inj      *sidecar.Injector
-	proxy    *sidecar.Proxy
-	svc      *sidecar.Service
-	promHead int64
-	promDown bool // Prometheus does not answer the head-series request
-	sim      *simTargets
-	cli      *http.Client
-	loadErr  error
-	failNext bool // the next targets update meets a failing reload of Prometheus (last update callback)
+	dir         string
+	cfgm        *prom.ConfigManager
+	sm          *scrape.Manager
+	tm          *sidecar.TargetsManager
+	inj         *sidecar.Injector
+	proxy       *sidecar.Proxy
+	svc         *sidecar.Service
+	promHead    int64
+	promDown    bool // Prometheus does not answer the head-series request
+	sim         *simTargets
+	cli         *http.Client
+	loadErr     error
+	failNext    bool      // the next targets update meets a failing reload of Prometheus (last update callback)
+	cfgFailNext bool      // the next configuration reload meets a failing reload of Prometheus (last reload callback)
+	fileFrom    string    // the raw configuration the generated file was last written from
+	loadedFrom  string    // the raw configuration the generated file was made from when Prometheus last loaded it
+	loaded      []projGen // what the (simulated) Prometheus runs with: the generated file as it was at the last reload that succeeded
 }
 
 // newSideWorld starts a sidecar on store directory dir (created if needed) and loads the store,
@@ -170,12 +174,24 @@ func newSideWorldFile(dir string, cfgYAML string, cfgFile string) *sideWorld {
 		}
 		return j
 	}, func() map[uint64]*target.ScrapeStatus { return w.tm.TargetsInfo().Status }, w.cfgm.ConfigInfo, reg, lg)
-	w.cfgm.AddReloadCallbacks(w.sm.ApplyConfig, w.inj.ApplyConfig)
+	w.loaded = []projGen{}
+	w.cfgm.AddReloadCallbacks(w.sm.ApplyConfig, w.inj.ApplyConfig, func(ci *prom.ConfigInfo) error {
+		w.fileFrom = string(ci.RawContent) // the injector has written the file from this configuration
+		if w.cfgFailNext {
+			w.cfgFailNext = false
+			return fmt.Errorf("scripted: prometheus reload failed")
+		}
+		w.loaded = w.generated()
+		w.loadedFrom = string(ci.RawContent)
+		return nil
+	})
 	w.tm.AddUpdateCallbacks(w.inj.UpdateTargets, func(map[string][]*target.Target) error {
 		if w.failNext {
 			w.failNext = false
 			return fmt.Errorf("scripted: prometheus reload failed")
 		}
+		w.loaded = w.generated()
+		w.loadedFrom = w.fileFrom
 		return nil
 	})
 	w.svc = sidecar.NewService(cfgFile, "http://127.0.0.1:9090", func() (int64, error) {
@@ -299,6 +315,7 @@ type sideProj struct {
 	RT     projRT       `json:"rt"`
 	RTErr  string       `json:"rtErr,omitempty"`
 	Gen    []projGen    `json:"gen"`
+	Loaded []projGen    `json:"loaded"`
 }
 
 func (w *sideWorld) project() sideProj {
@@ -325,6 +342,7 @@ func (w *sideWorld) project() sideProj {
 	}
 	sort.Slice(p.Status, func(a, b int) bool { return p.Status[a].H < p.Status[b].H })
 	p.Gen = w.generated()
+	p.Loaded = append([]projGen{}, w.loaded...)
 	rt := &shard.RuntimeInfo{}
 	if err := w.apiGet("/api/v1/shard/runtimeinfo/", &rt); err != nil {
 		p.RTErr += " rt: " + err.Error()
